@@ -41,7 +41,7 @@ def run_one(ctx, scn, impls=("sync", "async"), oracle_fns=(), compare=True, deta
                     break
         for fn in oracle_fns:
             try:
-                if fn in (oracles.o_c02, oracles.o_lean_c01, oracles.o_lean_sync, oracles.o_lean_c07):
+                if fn in (oracles.o_c02, oracles.o_lean_c01, oracles.o_lean_sync, oracles.o_lean_c07, oracles.o_lean_c04):
                     fl = fn(scn, impl_obs, runner, ctx.driver)
                 else:
                     fl = fn(scn, impl_obs, runner)
